@@ -382,6 +382,12 @@ func (c *CPS) ex(e ast.Expr) (string, error) {
 			// &T{…}: a freshly allocated record nobody else refers to is modelled by its value
 			return c.c04bComposite(cl)
 		}
+		if x.Op == token.AND {
+			// &v.f of a configuration value: only when the caller names what the pointer stands for
+			if n, ok := c.Names["&"+goKey(x.X)]; ok {
+				return n, nil
+			}
+		}
 		s, err := c.ex(x.X)
 		if err != nil {
 			return "", err
